@@ -8,6 +8,7 @@ import JT.Model.Reply
 import JT.Model.Layout
 import JT.Model.Codec
 import JT.Model.Act
+import JT.Model.Registry
 /-!
 Line-protocol driver: one operation per input line, one result line per operation.
 `<idx> <op> <args…>` ↦ `<idx> <result>`.
@@ -291,6 +292,41 @@ def run (script : String) : String :=
   s!"{" ".intercalate sorted} hb={hbLive}/{hbLive}"
 end ActSim
 
+/-! ### registry scenarios over `JT.Reg` -/
+namespace RegSim
+open JT.Reg
+
+def keyNum (k : String) : Nat := (k.toList.headD 'a').toNat
+
+def stepTok (acc : St × List String) (tok : String) : St × List String :=
+  let (s, out) := acc
+  if tok.startsWith "J" then
+    match ((tok.drop 1).toString).splitOn ":" with
+    | [i, k] =>
+      match i.toNat? with
+      | some c =>
+        let (s1, o) := step s (.join c (keyNum k))
+        match o with
+        | .joined _ _ => (s1, out ++ ["joined"])
+        | .refusedOut _ _ => ((step s1 (.leave c)).1, out ++ ["refused"])   -- the server closes a refused connection
+        | _ => (s1, out ++ ["silent"])
+      | none => (s, out ++ ["bad"])
+    | _ => (s, out ++ ["bad"])
+  else if tok.startsWith "X" then
+    match ((tok.drop 1).toString).toNat? with
+    | some c => ((step s (.leave c)).1, out ++ ["left"])
+    | none => (s, out ++ ["bad"])
+  else if tok.startsWith "S" then
+    match (step s (.route (keyNum (tok.drop 1).toString))).2 with
+    | .routed _ c => (s, out ++ [s!"to{c}"])
+    | _ => (s, out ++ ["noexist"])
+  else (s, out ++ ["bad"])
+
+def run (script : String) : String :=
+  let (_, out) := (script.splitOn ",").foldl stepTok (JT.Reg.init, [])
+  " ".intercalate out ++ " ev=ok"
+end RegSim
+
 def runOp (op : String) (args : List String) : String :=
   match op, args with
   | "dec", [f] =>
@@ -327,6 +363,7 @@ def runOp (op : String) (args : List String) : String :=
     match ofHex body with
     | none => "bad-op"
     | some b => (totModel ty b).getD "skip"
+  | "reg", [script] => RegSim.run script
   | "act", [script] => ActSim.run script
   | "actstress", [_] => "skip"
   | "stab", [sess] =>
